@@ -193,6 +193,9 @@ func executedPlan(s cloneShape, state string) (*workflow.Plan, error) {
 	switch state {
 	case "submitted":
 		return ws.Plan(ctx, id)
+	case "submitted-original":
+		// the caller's own object after Submit has been through it (ids, state and the engine's unexported bookkeeping set)
+		return p, nil
 	case "completed", "failed":
 		if err := ws.Start(ctx, id); err != nil {
 			return nil, err
@@ -794,7 +797,7 @@ func enumC18(env *EnumEnv, it *WorkItem) *EnumResult {
 	res := &EnumResult{Exhaustive: true}
 	reported := map[string]bool{}
 	idx := 0
-	states := []string{"fresh", "submitted", "running", "completed", "failed"}
+	states := []string{"fresh", "submitted", "submitted-original", "running", "completed", "failed"}
 	g := &budgetGuard{env: env, res: res, phase: "plan shapes (smallest first)"}
 	for blocks := 1; blocks <= 2; blocks++ {
 		for seqs := 1; seqs <= 2; seqs++ {
@@ -848,7 +851,7 @@ func init() {
 	register(&PropDef{
 		ID:    "C18",
 		Level: "exploration",
-		Rule: "plan shapes (1-2 blocks x 1-2 sequences x 1-2 actions x 6 check-group patterns (incl. a passing bypass group on a block and on the plan, i.e. bypassed scopes once executed), request by value and by pointer, each request holding slices, maps, pointers and secure-tagged leaves at several depths) x execution state {fresh, submitted, running, completed, failed} " +
+		Rule: "plan shapes (1-2 blocks x 1-2 sequences x 1-2 actions x 6 check-group patterns (incl. a passing bypass group on a block and on the plan, i.e. bypassed scopes once executed), request by value and by pointer, each request holding slices, maps, pointers and secure-tagged leaves at several depths) x execution state {fresh, submitted (read back), submitted (the caller's own object after Submit), running, completed, failed} " +
 			"(submitted/completed/failed are REAL plans produced by a Workstream over sqlite) x {keep-state} x {keep-secrets} x EVERY object of the plan as the clone target (clone.Plan/Block/Checks/Sequence/Action); " +
 			"oracle: canonical dump of the original before/after cloning and after mutating every reachable leaf of the clone, reflective search for shared pointers/slice arrays/maps, definition fields object by object, ids/state/attempts with keep-state and their absence without, and Submit of the default clone on a fresh Workstream; " +
 			"distinct_nontrivial = cases other than the default clone of a fresh plan",
